@@ -778,7 +778,12 @@ func (c *updater) buildBackendOAuth(d *backData) {
 }
 
 func (c *updater) findBackend(namespace, uriPrefix string) *hatypes.HostBackend {
-	for _, host := range c.haproxy.Hosts().Items() {
+	// sorted hosts, so the backend found does not depend on the map iteration order
+	hosts := c.haproxy.Hosts().BuildSortedItems()
+	if defaultHost := c.haproxy.Hosts().DefaultHost(); defaultHost != nil {
+		hosts = append(hosts, defaultHost)
+	}
+	for _, host := range hosts {
 		for _, path := range host.Paths {
 			if strings.TrimRight(path.Path(), "/") == uriPrefix && path.Backend.Namespace == namespace {
 				return &path.Backend
